@@ -15,6 +15,7 @@ RULE = c05.RULE.replace('the monitor', 'the immutability monitor')
 ASSUMPTIONS = c05.ASSUMPTIONS + ['every public entry point appears as an event with each TT argument position (operands and optional '
                                  'initial guesses) filled from the pool']
 BOUNDS = c05.BOUNDS
+CASE_BUDGET = c05.CASE_BUDGET
 cases = c05.cases
 
 
